@@ -19,7 +19,7 @@ git -C /repo worktree remove --force $wt
 # my checks against the change
 ( cd /repo && git apply $out/patch.diff ) || { echo "patch does not apply to /repo" >> $log; exit 3; }
 for p in $props; do
-  ( cd /verif && VERIF_BUDGET_S=${SEED_BUDGET_S:-25} python3 driver/check.py --property $p --tier quick ) > $out/check-$p.out 2>&1
+  ( cd /verif && mkdir -p $out/ev $out/rp && VERIF_EVIDENCE_DIR=$out/ev VERIF_REPLAYS_DIR=$out/rp VERIF_BUDGET_S=${SEED_BUDGET_S:-25} python3 driver/check.py --property $p --tier quick ) > $out/check-$p.out 2>&1
   echo "check $p rc=$? : $(grep -E 'VIOLATION|runs,' $out/check-$p.out | tr '\n' ' ')" >> $log
 done
 git -C /repo checkout -- .
